@@ -124,6 +124,8 @@ func Main(props []*Property) {
 	of := fs.Int("of", 1, "")
 	from := fs.Int("from", 0, "")
 	only := fs.Int("only", -1, "")
+	subFrom := fs.Int("subfrom", 0, "")
+	subOnly := fs.Int("subonly", -1, "")
 	out := fs.String("out", "", "")
 	tmp := fs.String("tmp", "", "")
 	_ = fs.Parse(os.Args[3:])
@@ -131,7 +133,7 @@ func Main(props []*Property) {
 	case "run":
 		os.Exit(drive(p, *tier, *seed, *replay))
 	case "shard":
-		runShard(p, *tier, *seed, *shard, *of, *from, *only, *out, *tmp)
+		runShard(p, *tier, *seed, *shard, *of, *from, *only, *subFrom, *subOnly, *out, *tmp)
 	default:
 		fmt.Fprintln(os.Stderr, "vcheck: unknown mode", mode)
 		os.Exit(2)
@@ -153,7 +155,7 @@ func cpuSeconds() float64 {
 	return float64(ru.Utime.Sec) + float64(ru.Utime.Usec)/1e6 + float64(ru.Stime.Sec) + float64(ru.Stime.Usec)/1e6
 }
 
-func runShard(p *Property, tier string, seed int64, shard, of, from, only int, outPath, tmp string) {
+func runShard(p *Property, tier string, seed int64, shard, of, from, only, subFrom, subOnly int, outPath, tmp string) {
 	if p.ASLimit > 0 && !p.Race {
 		lim := syscall.Rlimit{Cur: p.ASLimit, Max: p.ASLimit}
 		_ = syscall.Setrlimit(syscall.RLIMIT_AS, &lim)
@@ -200,7 +202,16 @@ func runShard(p *Property, tier string, seed int64, shard, of, from, only int, o
 		}
 		dir := filepath.Join(tmp, fmt.Sprintf("c%d", i))
 		_ = os.MkdirAll(dir, 0o755)
-		c := &Ctx{Prop: p.ID, Tier: tier, Seed: seed, Index: i, R: NewRand(seed, p.ID, i), Dir: dir, out: enc, Replay: only >= 0}
+		c := &Ctx{Prop: p.ID, Tier: tier, Seed: seed, Index: i, R: NewRand(seed, p.ID, i), Dir: dir, out: enc, Replay: only >= 0,
+			SubOnly: subOnly, markPath: filepath.Join(tmp, "mark")}
+		if i == from {
+			c.SubFrom = subFrom // restart behind the input that killed the previous process
+		}
+		c.onMark = func() {
+			mu.Lock()
+			caseStartCPU, caseStartWall = cpuSeconds(), time.Now()
+			mu.Unlock()
+		}
 		c.emit(Event{T: "begin"})
 		mu.Lock()
 		active, caseStartCPU, caseStartWall = true, cpuSeconds(), time.Now()
@@ -224,6 +235,7 @@ func runShard(p *Property, tier string, seed int64, shard, of, from, only int, o
 type violation struct {
 	Key     string
 	Index   int
+	Sub     *int // sub-input of the case (nil: the case has none)
 	Witness json.RawMessage
 	Count   int
 }
@@ -245,16 +257,34 @@ type sampleAt struct {
 	V json.RawMessage
 }
 
-func (a *agg) addViol(key string, idx int, w json.RawMessage) {
+func (a *agg) addViol(key string, idx int, sub *int, w json.RawMessage) {
 	v := a.viols[key]
 	if v == nil {
-		a.viols[key] = &violation{Key: key, Index: idx, Witness: w, Count: 1}
+		a.viols[key] = &violation{Key: key, Index: idx, Sub: sub, Witness: w, Count: 1}
 		return
 	}
 	v.Count++
-	if idx < v.Index {
-		v.Index, v.Witness = idx, w
+	if idx < v.Index || (idx == v.Index && sub != nil && v.Sub != nil && *sub < *v.Sub) {
+		v.Index, v.Sub, v.Witness = idx, sub, w
 	}
+}
+
+// readMark returns the sub-input announced last by the shard using tmp, if it belongs to case.
+func readMark(tmp string, s, forCase int) (sub int, desc string, ok bool) {
+	b, err := os.ReadFile(filepath.Join(tmp, fmt.Sprintf("s%d", s), "mark"))
+	if err != nil {
+		return 0, "", false
+	}
+	parts := strings.SplitN(string(b), "\t", 3)
+	if len(parts) != 3 {
+		return 0, "", false
+	}
+	ci, e1 := strconv.Atoi(parts[0])
+	si, e2 := strconv.Atoi(parts[1])
+	if e1 != nil || e2 != nil || ci != forCase {
+		return 0, "", false
+	}
+	return si, parts[2], true
 }
 
 func classifyDeath(stderr string, code int) (kind, site string) {
@@ -316,7 +346,7 @@ func drive(p *Property, tier string, seed int64, replayPath string) int {
 		fmt.Fprintln(os.Stderr, "vcheck:", err)
 		return 2
 	}
-	only := -1
+	only, subOnly := -1, -1
 	if replayPath != "" {
 		b, err := os.ReadFile(replayPath)
 		if err != nil {
@@ -328,12 +358,16 @@ func drive(p *Property, tier string, seed int64, replayPath string) int {
 			Tier     string `json:"tier"`
 			Seed     int64  `json:"seed"`
 			Index    int    `json:"index"`
+			Sub      *int   `json:"sub"`
 		}
 		if err := json.Unmarshal(b, &rp); err != nil || rp.Property != p.ID {
 			fmt.Fprintln(os.Stderr, "vcheck: replay file does not belong to", p.ID, err)
 			return 2
 		}
 		tier, seed, only = rp.Tier, rp.Seed, rp.Index
+		if rp.Sub != nil {
+			subOnly = *rp.Sub
+		}
 	}
 	base := "/dev/shm"
 	if st, err := os.Stat(base); err != nil || !st.IsDir() {
@@ -367,16 +401,16 @@ func drive(p *Property, tier string, seed int64, replayPath string) int {
 		wg.Add(1)
 		go func(s int) {
 			defer wg.Done()
-			from := 0
+			from, subFrom := 0, 0
 			for attempt := 0; ; attempt++ {
 				outPath := filepath.Join(tmp, fmt.Sprintf("shard%d.%d.jsonl", s, attempt))
 				errPath := filepath.Join(tmp, fmt.Sprintf("shard%d.%d.stderr", s, attempt))
 				stdoutPath := filepath.Join(tmp, fmt.Sprintf("shard%d.%d.stdout", s, attempt))
 				args := []string{"shard", p.ID, "--tier", tier, "--seed", strconv.FormatInt(seed, 10),
-					"--shard", strconv.Itoa(s), "--of", strconv.Itoa(procs), "--from", strconv.Itoa(from),
+					"--shard", strconv.Itoa(s), "--of", strconv.Itoa(procs), "--from", strconv.Itoa(from), "--subfrom", strconv.Itoa(subFrom),
 					"--out", outPath, "--tmp", filepath.Join(tmp, fmt.Sprintf("s%d", s))}
 				if only >= 0 {
-					args = append(args, "--only", strconv.Itoa(only), "--shard", "0", "--of", "1")
+					args = append(args, "--only", strconv.Itoa(only), "--shard", "0", "--of", "1", "--subonly", strconv.Itoa(subOnly))
 				}
 				cmd := exec.Command(self, args...)
 				ef, _ := os.Create(errPath)
@@ -403,6 +437,11 @@ func drive(p *Property, tier string, seed int64, replayPath string) int {
 				}
 				eb, _ := os.ReadFile(errPath)
 				stderr := string(eb)
+				markSub, markDesc, marked := readMark(tmp, s, last)
+				var subp *int
+				if marked {
+					subp = &markSub
+				}
 				a.mu.Lock()
 				if code == exitWatchdog {
 					a.inconclusive = append(a.inconclusive, fmt.Sprintf("case %d: wall-clock watchdog", last))
@@ -411,13 +450,17 @@ func drive(p *Property, tier string, seed int64, replayPath string) int {
 					if kind == "hang:cpu" && !p.HangIsViolation {
 						a.inconclusive = append(a.inconclusive, fmt.Sprintf("case %d: cpu budget exceeded at %s", last, site))
 					} else {
-						w, _ := json.Marshal(map[string]any{"death": kind, "site": site, "exit": code, "stderr_tail": tail(stderr, 3000)})
-						a.addViol("crash:"+kind+"@"+site, last, w)
+						w, _ := json.Marshal(map[string]any{"death": kind, "site": site, "exit": code, "input": markDesc, "stderr_tail": tail(stderr, 3000)})
+						a.addViol("crash:"+kind+"@"+site, last, subp, w)
 					}
 				}
 				a.evals++
 				a.mu.Unlock()
-				from = last + 1
+				if marked { // continue the same case behind the input that killed the process
+					from, subFrom = last, markSub+1
+				} else {
+					from, subFrom = last+1, 0
+				}
 				if only >= 0 {
 					return
 				}
@@ -460,7 +503,7 @@ func drive(p *Property, tier string, seed int64, replayPath string) int {
 		}
 		nviol++
 		rp := filepath.Join(replayDir, fmt.Sprintf("%s-%016x.json", p.ID, hashString(k)))
-		b, _ := json.MarshalIndent(map[string]any{"property": p.ID, "tier": tier, "seed": seed, "index": v.Index, "key": k, "count": v.Count, "witness": v.Witness}, "", " ")
+		b, _ := json.MarshalIndent(map[string]any{"property": p.ID, "tier": tier, "seed": seed, "index": v.Index, "sub": v.Sub, "key": k, "count": v.Count, "witness": v.Witness}, "", " ")
 		_ = os.WriteFile(rp, b, 0o644)
 		fmt.Printf("VIOLATION property=%s replay=%s\n", p.ID, rp)
 		fmt.Printf("  key=%s count=%d case=%d witness=%s\n", k, v.Count, v.Index, trunc(string(v.Witness), 1500))
@@ -577,7 +620,7 @@ func (a *agg) consume(path string) (last int, open bool) {
 				a.counters[k] += v
 			}
 		case "viol":
-			a.addViol(e.Key, e.I, e.Witness)
+			a.addViol(e.Key, e.I, e.Sub, e.Witness)
 		case "sample":
 			if len(a.samples) < 64 {
 				a.samples = append(a.samples, sampleAt{e.I, e.Witness})
